@@ -474,7 +474,7 @@ func (w *world) oracle(dropped uint32, haveDropped bool) {
 	// classification context of an operation, for known-finding signatures
 	ctxOf := func(op *opCall) string {
 		res := "plain"
-		rank := map[string]int{"plain": 0, "after-shutdown": 1, "after-failed-shutdown": 2, "overlaps-shutdown": 3}
+		rank := map[string]int{"plain": 0, "after-shutdown": 1, "after-failed-shutdown": 2, "overlaps-shutdown": 3, "overlaps-given-up-shutdown": 3, "overlaps-running-shutdown": 4}
 		for _, o := range w.ops {
 			if o == op || o.kind != "shutdown" {
 				continue
@@ -483,6 +483,17 @@ func (w *world) oracle(dropped uint32, haveDropped bool) {
 			switch {
 			case o.inv < op.ret && (o.ret == 0 || o.ret > op.inv):
 				c = "overlaps-shutdown" // o was in progress at some moment of op
+				if op.kind == "shutdown" && op.level == "sp" && o.level == "sp" {
+					// Two Shutdown calls on the processor itself: the later one waits in the sync.Once
+					// for the executing one, so it can only return early if that one gave up on its
+					// context (known finding K1). Returning while the executing call is still running
+					// without having given up is a different failure.
+					if o.ret != 0 && o.err != nil {
+						c = "overlaps-given-up-shutdown"
+					} else {
+						c = "overlaps-running-shutdown"
+					}
+				}
 			case o.ret != 0 && o.ret < op.inv && o.err != nil:
 				c = "after-failed-shutdown"
 			case o.ret != 0 && o.ret < op.inv:
